@@ -172,6 +172,18 @@ def _balance_ok(sem, m, form, ports):
     return len(tot) == len(ports) and all(x >= -1e-9 for x in tot) and isinstance(k.port_uops, list)
 
 
+def _found_ok(sem, form, nports):
+    """What the analysis does with a matched form (_handle_instruction_found) and what the
+    machine-readable report then needs: numeric throughput / latency / latency without load."""
+    from osaca.parser.instruction_form import InstructionForm
+    f = InstructionForm(mnemonic=form.mnemonic, operands=[], line="x", line_number=1)
+    f.flags = []
+    flags = []
+    tp, pp, lat, lat_wo = sem._handle_instruction_found(form, nports, f, flags)
+    float(tp), float(lat), float(lat_wo)
+    return len(f.port_pressure) == nports
+
+
 def make_model_cell(arch, balance_all=False):
     def run(budget):
         import z3
@@ -204,6 +216,8 @@ def make_model_cell(arch, balance_all=False):
                         if len(vec) != len(ports):
                             cost_failures.append(i)
                     if kind == "form" and pp is not None and (balance_all or isinstance(pp, dict)) and not _balance_ok(sem, m, obj, ports):
+                        cost_failures.append(i)
+                    if kind == "form" and ports and not _found_ok(sem, obj, len(ports)):
                         cost_failures.append(i)
                 except Exception:   # noqa
                     cost_failures.append(i)
@@ -240,7 +254,7 @@ def replay_entry(arch, name, k):
                 m.average_port_pressure(pp)
                 if kind == "form":
                     try:
-                        return _balance_ok(_sem_for(m), m, obj, ports)
+                        return _balance_ok(_sem_for(m), m, obj, ports) and _found_ok(_sem_for(m), obj, len(ports))
                     except Exception:   # noqa
                         return False
             return True
